@@ -171,7 +171,7 @@ func (c *FileCache[MetadataT]) Get(key CacheKey) (*Entry[MetadataT], error) {
 	slog.Debug("Successful cache hit", "key", key.Hex)
 	return &Entry[MetadataT]{
 		Data:     dataFile,
-		Metadata: entryMeta,
+		Metadata: entryMeta.snapshot(),
 		Stale:    stale,
 	}, nil
 }
@@ -257,7 +257,7 @@ func (c *FileCache[MetadataT]) Cache(key CacheKey, data io.Reader, expires time.
 
 	return &Entry[MetadataT]{
 		Data:     file,
-		Metadata: meta,
+		Metadata: meta.snapshot(),
 	}, nil
 }
 
@@ -318,5 +318,5 @@ func (c *FileCache[MetadataT]) GetMetadata(key CacheKey) (meta *EntryMetadata[Me
 	metaPtr.LastAccess = time.Now() // Now safe because we have a full Lock
 
 	slog.Debug("Successfully retrieved metadata", "key", key.Hex)
-	return metaPtr, stale, nil
+	return metaPtr.snapshot(), stale, nil
 }
